@@ -515,15 +515,13 @@ Definition why_hard (nodes0 : list (list Z)) (es0 : list edge) (nodes : list (li
 (* ------------------------------------------------------------------ C12: allowed pairings *)
 Definition qpos (q : Q) : bool := negb (Qle_bool q (0#1)).
 
-(* the pairing of edge e has positive weight in the target of its topology, in both
-   orientations (the code tests focal-vertex-first; targets are symmetric) *)
+(* the pairing of edge e has positive weight in the target of its topology (the code tests the
+   focal-vertex-first orientation; a stored edge does not remember which end was focal, so either
+   orientation counts: targets are mixing matrices, i.e. symmetric) *)
+Definition qpos_opt (o : option Q) : bool := match o with Some q => qpos q | None => false end.
 Definition allowed (nodes : list (list Z)) (tg : target) (e : edge) : bool :=
   match exk nodes (et e) (ea e), exk nodes (et e) (eb e) with
-  | Some ka, Some kb =>
-      match tlookup tg (et e) (ka ++ kb), tlookup tg (et e) (kb ++ ka) with
-      | Some x, Some y => qpos x && qpos y
-      | _, _ => false
-      end
+  | Some ka, Some kb => qpos_opt (tlookup tg (et e) (ka ++ kb)) || qpos_opt (tlookup tg (et e) (kb ++ ka))
   | _, _ => false
   end.
 
